@@ -234,6 +234,41 @@ def run_witnesses(repo):
         shutil.rmtree(tmp, ignore_errors=True)
 
 
+def r_exact_size(F, R, cat=None):
+    """`ExactSizeIterator::len()` is a provided method that asserts `size_hint()`'s lower and upper
+    bound agree.  The provided `Iterator::size_hint` returns `(0, None)`, so a type that implements
+    ExactSizeIterator without overriding size_hint (or len) panics on *every* call of len().  For
+    each local ExactSizeIterator impl: the type's Iterator impl overrides size_hint (or the
+    ExactSizeIterator impl overrides len), and that size_hint is taken from an underlying
+    iterator's size_hint / len, not a constant."""
+    n = 0
+    for im in F.impls:
+        if (im.get("trait") or "").split("::")[-1] != "ExactSizeIterator":
+            continue
+        adt = (im.get("self_ty") or {}).get("adt")
+        if not adt or adt not in F.adts or (im.get("span") or {}).get("file", "").startswith("tests"):
+            continue
+        n += 1
+        hints = [b for b in F.bodies.values() if b.self_adt == adt and b.kind == "AssocFn" and
+                 ((b.trait == "Iterator" and b.name == "size_hint") or
+                  (b.trait == "ExactSizeIterator" and b.name == "len"))]
+        where = "%s:%s" % (im["span"]["file"], im["span"]["line"])
+        label = "<%s as ExactSizeIterator>" % adt
+        if not hints:
+            R.check("R-ITER", label, False, construct="ExactSizeIterator impl backed by a size_hint override",
+                    where=where,
+                    detail="the type inherits Iterator::size_hint = (0, None): ExactSizeIterator::len() asserts "
+                           "upper == Some(lower) and panics on every call")
+            continue
+        for b in hints:
+            R.saw(b)
+            srcs = [callee_tag(t.get("callee")) for (_, t) in b.calls()]
+            ok = any(tg[1] in ("size_hint", "len") for tg in srcs)
+            R.check("R-ITER", label, ok, construct="ExactSizeIterator impl backed by a size_hint override",
+                    where=b.where(), detail="size_hint/len derived from %s" % [("%s::%s" % tg) for tg in srcs][:4])
+    R.floor("R-ITER", "local ExactSizeIterator impls", n, 3)
+
+
 def r_iter_positions(F, R, cat=None):
     """Every method of a read-item iterator (next and any specialisation such as nth, last,
     count ...) obtains the positions it looks up from its underlying range iterator's own
